@@ -134,6 +134,8 @@ impl<T: Clone> WaitList<T> {
         for _ in 0..MAX_CONCURRENCY {
             waiters.push(Waiter::new());
         }
+        #[cfg(blue_verif)]
+        waiters.truncate(crate::verif::slots(MAX_CONCURRENCY));
         let state = WaitListState {
             head: 0,
             tail: 0,
@@ -153,13 +155,19 @@ impl<T: Clone> WaitList<T> {
             state = self.assert_invariants(state);
             state.waiting_for_available += 1;
             WAITING_FOR_WAITERS.click();
+            #[cfg(blue_verif)]
+            crate::verif::event("link_wait", state.head, state.tail, state.waiting_for_available);
             state = self.wait_waiter_available.wait(state).unwrap();
+            #[cfg(blue_verif)]
+            crate::verif::event("link_wake", state.head, state.tail, state.waiting_for_available);
             state.waiting_for_available -= 1;
             state = self.assert_invariants(state);
         }
         let index = state.tail;
         state.tail += 1;
         state = self.index_waitlist(index).initialize(state, t);
+        #[cfg(blue_verif)]
+        crate::verif::event("link", index, state.head, state.tail);
         let _state = self.assert_invariants(state);
         LINK.click();
         WaitGuard {
@@ -201,11 +209,20 @@ impl<T: Clone> WaitList<T> {
                 state.head += 1;
             }
             state = self.assert_invariants(state);
+            #[cfg(blue_verif)]
+            crate::verif::event(
+                "unlink",
+                index,
+                state.head,
+                (state.waiting_for_available > 0) as u64,
+            );
             state.waiting_for_available > 0
         };
         if notify {
             NOTIFY_WAITER_AVAILABLE.click();
             self.wait_waiter_available.notify_one();
+            #[cfg(blue_verif)]
+            crate::verif::event("notify_available", index, 0, 0);
         }
         guard.owned = false;
         guard.index = u64::MAX;
@@ -218,8 +235,12 @@ impl<T: Clone> WaitList<T> {
         if state.head < state.tail {
             NOTIFY_HEAD.click();
             self.index_waitlist(state.head).cond.notify_one();
+            #[cfg(blue_verif)]
+            crate::verif::event("notify_head", 1, state.head, state.tail);
         } else {
             NOTIFY_HEAD_DROPPED.click();
+            #[cfg(blue_verif)]
+            crate::verif::event("notify_head", 0, state.head, state.tail);
         }
     }
 
@@ -276,12 +297,16 @@ impl<'a, T: Clone + 'a> WaitGuard<'a, T> {
     /// Store a value for the WaitGuard thread to load later.
     pub fn store(&mut self, t: T) {
         let state = self.list.state.lock().unwrap();
+        #[cfg(blue_verif)]
+        crate::verif::event("store", self.index, state.head, state.tail);
         let _state = self.list.index_waitlist(self.index).store(state, t);
     }
 
     /// Load the value for the WaitGuard.
     pub fn load(&mut self) -> T {
         let state = self.list.state.lock().unwrap();
+        #[cfg(blue_verif)]
+        crate::verif::event("load", self.index, state.head, state.tail);
         let (_state, t) = self.list.index_waitlist(self.index).load(state);
         t
     }
@@ -296,6 +321,8 @@ impl<'a, T: Clone + 'a> WaitGuard<'a, T> {
     pub fn is_head(&mut self) -> bool {
         let mut state = self.list.state.lock().unwrap();
         state = self.list.assert_invariants(state);
+        #[cfg(blue_verif)]
+        crate::verif::event("is_head", self.index, state.head, state.tail);
         state.head == self.index
     }
 
@@ -371,6 +398,8 @@ impl<'a, T: Clone + 'a> Iterator for WaitIterator<'a, T> {
     fn next(&mut self) -> Option<Self::Item> {
         let state = self.guard.list.state.lock().unwrap();
         let index = self.index;
+        #[cfg(blue_verif)]
+        crate::verif::event("iter_next", index, state.head, state.tail);
         if index >= state.tail {
             None
         } else {
